@@ -264,8 +264,7 @@ def extraRequests : Headers → List ImpReq
       vs.map (ImpReq.extra (unescapeExtraKey (toLower (n.drop hImpExtraPrefix.length)))) ++ extraRequests h
     else extraRequests h
 
-/-- `buildImpersonationRequests`: `none` is an error: "requested … without impersonating a user", or (regenerated: whether the
-    source has the check) a reference that is not valid UTF-8 — a SubjectAccessReview could not carry it -/
+/-- `buildImpersonationRequests`: `none` is an error: "requested … without impersonating a user", or a reference that is not valid UTF-8 — a SubjectAccessReview could not carry it -/
 def buildImpersonationRequests (h : Headers) : Option (List ImpReq) :=
   let requestedUser := hget h hImpUser
   let hasUser := !requestedUser.isEmpty
@@ -281,7 +280,7 @@ def buildImpersonationRequests (h : Headers) : Option (List ImpReq) :=
   if (hasGroups || hasUserExtra) && !hasUser then none
   else
     let impersonationRequests := userReqs ++ groups.map ImpReq.group ++ extraRequests h
-    if KG.Gen.C02.impersonationRejectsNonUTF8 && !impersonationRequests.all refUTF8 then none
+    if !impersonationRequests.all refUTF8 then none
     else some impersonationRequests
 
 /-- the `authorizer.AttributesRecord` of one check (verb `impersonate`, `ResourceRequest: true`, `User` = the requestor) -/
@@ -383,15 +382,10 @@ def impersonate (h : Headers) (requestor : Identity) (az : Attrs → Decision) :
 def bearerAuth (token : Str) (h : Headers) : Headers :=
   if !(hget h hAuthorization).isEmpty then h else hset h hAuthorization (bearerPrefix ++ token)
 
-/-- `legalHeaderByte`: `int(b) < len(legalHeaderKeyBytes) && legalHeaderKeyBytes[b]` (table regenerated from the source) -/
-def legalHeaderByte (b : UInt8) : Bool :=
-  b.toNat < KG.Gen.C02.legalHeaderKeyBytesLen && KG.Gen.C02.legalHeaderKeyBytes.contains b.toNat
-
-/-- `shouldEscape`: illegal header-name bytes, '%' itself, and the byte ranges a case-insensitive header name cannot
-    carry (`'A' <= b && b <= 'Z'`); the clauses are regenerated from the source -/
-def shouldEscape (b : UInt8) : Bool :=
-  !legalHeaderByte b || (KG.Gen.C02.escapesPercent && b == 37) ||
-  KG.Gen.C02.escapeRanges.any (fun r => r.1 ≤ b.toNat && b.toNat ≤ r.2)
+/-- `shouldEscape`: the set of bytes `headerKeyEscape` %-encodes, regenerated from the source by EVALUATING its predicate on
+    every byte (however the source spells it: table, range tests, helper functions): the bytes that are not legal in a header
+    name, '%' itself, and upper-case letters (a case-insensitive header name cannot carry them) — `escaped_set` below -/
+def shouldEscape (b : UInt8) : Bool := KG.Gen.C02.escapedBytes.contains b.toNat
 
 /-- one upper-case hexadecimal digit (`%X`) -/
 def hexUpper (n : UInt8) : UInt8 := if n < 10 then 48 + n else 55 + n
@@ -441,11 +435,11 @@ def wrapHeaders (h : Headers) (u : Identity) : Headers :=
     addExtras h3 u.extra
 
 /-- `dynamicImpersonatingRoundTripper.WrapRequest` with a context user: `none` is the error returned when the identity has a
-    value a header cannot carry (the check sits after the early return and before anything is written; whether the source
-    has it is regenerated) -/
+    value a header cannot carry (the check sits after the early return and before anything is written; tied behaviourally:
+    the harness compares the refusals on both paths) -/
 def wrapRequest (h : Headers) (u : Identity) : Option Headers :=
   if !(hget h hImpUser).isEmpty then some h
-  else if KG.Gen.C02.wrapRequestChecksValues && !checkImpersonationValues u then none
+  else if !checkImpersonationValues u then none
   else some (wrapHeaders h u)
 
 /-- net/http's transport refuses a request with an invalid header field name or value -/
